@@ -649,13 +649,6 @@ func parseConfig() (err error) {
 		confPath := configFilePath()
 		log.Debug("writing config file %q after config upgrade", confPath)
 
-		// Keep the configuration of the previous schema version around, so that
-		// the user can roll back if the upgrade goes wrong.
-		err = os.Rename(confPath, confPath+".bak")
-		if err != nil {
-			return fmt.Errorf("backing up old config: %w", err)
-		}
-
 		err = maybe.WriteFile(confPath, config.fileData, aghos.DefaultPermFile)
 		if err != nil {
 			return fmt.Errorf("writing new config: %w", err)
